@@ -1,5 +1,14 @@
 import Drand
-open Drand.Driver
+open Drand.Driver.CacheD
+open Drand.Driver.ChainD
+open Drand.Driver.CodecD
+open Drand.Driver.CrashD
+open Drand.Driver.DkgD
+open Drand.Driver.HashD
+open Drand.Driver.RouteD
+open Drand.Driver.SecrecyD
+open Drand.Driver.StoreD
+open Drand.Driver.TimeD
 
 def isWs (c : Char) : Bool := c == ' ' || c == '\t' || c == '\n' || c == '\r'
 
